@@ -115,6 +115,14 @@ def run(prop, tier, seed, scratch, replay, t0):
         if p.returncode != 0:
             proof_problems.append("leanchecker rejected: " + p.stdout[-1000:])
 
+    # 1b. the translation tie (C12, C06): bins() as translated from the source imported now is the model -----------
+    tie = None
+    if getattr(mod, "TRANSLATION_TIE", False) and ok and not replay:
+        import gentie
+        tie = gentie.check()
+        if tie["status"] == "broken":
+            proof_problems.append("translation tie broken: %s\n%s" % (tie["reason"], (tie.get("lean_output") or "")[-1500:]))
+
     # 2+3. correspondence and oracle ------------------------------------------------------------
     ctx = Ctx(prop, tier, seed, scratch, model_ok)
     anchors = anchored_files(prop)
@@ -229,7 +237,8 @@ def run(prop, tier, seed, scratch, replay, t0):
                 "axioms accepted: propext, Classical.choice, Quot.sound (no native_decide, no bv_decide, no sorry)",
                 "hand-written model lean/GffModel tied to /repo by the correspondence run below (differential, sampled)",
                 "Python harness: generators, codec, canonicalisation, oracle",
-            ] + list(getattr(mod, "TRUSTED", [])),
+            ] + (["translator tools/py2lean.py (gffutils/bins.py -> GffGen.bins; Python int = Lean Int, a set of ints = List Int "
+                  "observed through membership)"] if tie else []) + list(getattr(mod, "TRUSTED", [])),
             "theorems": {n: ax for n, ax in sorted(thms.items())},
             "obligation_kinds": "one per audited theorem + clean `lake build` + no forbidden token",
             "proof_problems": proof_problems,
@@ -253,6 +262,8 @@ def run(prop, tier, seed, scratch, replay, t0):
         "wall_s": round(time.time() - t0, 2),
         "violations": (len(res.oracle_failures) or (1 if rc else 0)),
     }
+    if tie is not None:
+        ev["coverage"]["translation_tie"] = {k: v for k, v in tie.items() if k != "translation"}
     ev["coverage"].update(res.extra)
     os.makedirs(common.EVIDENCE, exist_ok=True)
     with open(os.path.join(common.EVIDENCE, prop + ".json"), "w") as f:
@@ -263,6 +274,8 @@ def run(prop, tier, seed, scratch, replay, t0):
              len(res.corr_disagreements), len(res.oracle_failures), time.time() - t0))
     for c in modelled.get("changed", []):
         print("note: %s differs from the tree the model was validated against (model: %s)" % (c["function"], ", ".join(c["lean"])))
+    if tie is not None and tie["status"] != "holds":
+        print("note: translation tie %s: %s" % (tie["status"], tie.get("reason")))
     if vio_line:
         print(vio_line)
     return rc
